@@ -13,7 +13,7 @@ use std::collections::BTreeMap;
 
 pub struct C08;
 
-const SHIPPED: [(&str, u8); 3] = [("example_v1.hpo", 1), ("example_v2.hpo", 2), ("example.hpo", 3)];
+const SHIPPED: [(&str, u8); 4] = [("example_v1.hpo", 1), ("example_v2.hpo", 2), ("example.hpo", 3), ("ontology.hpo", 3)];
 
 fn shipped_path(name: &str) -> String {
     let repo = std::env::var("VERIF_REPO").unwrap_or_else(|_| "/repo".to_string());
@@ -38,6 +38,7 @@ impl C08 {
             return;
         };
         out.bucket(&format!("calibration/v{v}"));
+        out.bucket(&format!("calibration/{name}"));
         let (dv, facts) = match decode(&bytes) {
             Ok(x) => x,
             Err(e) => {
@@ -68,14 +69,15 @@ impl C08 {
         }
         // truncation of the shipped file: all section boundaries +-8, record starts (strided), plus a stride
         let mut offsets: Vec<usize> = Vec::new();
+        let big = bytes.len() > 1_000_000; // the complete HPO (4 MB): every load parses megabytes
         for (s, e) in &layout.sections {
-            for d in 0..=8usize {
+            for d in 0..=(if big && tier == Tier::Quick { 1usize } else { 8usize }) {
                 offsets.push(s.saturating_sub(d));
                 offsets.push((s + d).min(bytes.len() - 1));
                 offsets.push(e.saturating_sub(d));
             }
         }
-        let stride_records = tier.pick(97, 7);
+        let stride_records = if big { tier.pick(4001, 97) } else { tier.pick(97, 7) };
         for (i, r) in layout.record_starts.iter().enumerate() {
             if i % stride_records == 0 {
                 offsets.push(*r);
@@ -87,7 +89,7 @@ impl C08 {
             let step = tier.pick(29, 1);
             offsets.extend((0..bytes.len()).step_by(step));
         } else {
-            offsets.extend((0..bytes.len()).step_by(tier.pick(40_009, 1_009)));
+            offsets.extend((0..bytes.len()).step_by(if big { tier.pick(400_009, 20_011) } else { tier.pick(40_009, 1_009) }));
         }
         offsets.sort_unstable();
         offsets.dedup();
@@ -101,7 +103,7 @@ impl C08 {
             }
             out.bucket("truncation_offsets_tried");
         }
-        out.sig = hash_u64s(&[0xca11b, u64::from(v)]);
+        out.sig = hash_u64s(&[0xca11b, u64::from(v), bytes.len() as u64]);
         out.nontrivial = true;
         out.case = Json::obj().set("shipped_file", Json::s(name)).set("bytes", Json::us(bytes.len())).set("facts", facts.summary());
     }
@@ -270,7 +272,7 @@ impl Monitor for C08 {
         ]
     }
     fn plan(&self, tier: Tier) -> Vec<String> {
-        let mut v: Vec<String> = (0..3).map(|i| format!("calib:{i}")).collect();
+        let mut v: Vec<String> = (0..SHIPPED.len()).map(|i| format!("calib:{i}")).collect();
         for i in 0..tier.pick(90, 6000) {
             v.push(format!("rnd:{i}"));
         }
@@ -281,6 +283,7 @@ impl Monitor for C08 {
             "calibration/v1",
             "calibration/v2",
             "calibration/v3",
+            "calibration/ontology.hpo",
             "encoder_reproduces_shipped_file_bytewise",
             "layout/v1",
             "layout/v2",
@@ -315,7 +318,7 @@ impl Monitor for C08 {
         let mut out = CaseOut::new();
         let mut rng = Rng::for_case(seed, "C08", label);
         if let Some(i) = label.strip_prefix("calib:") {
-            let (name, v) = SHIPPED[i.parse::<usize>().unwrap() % 3];
+            let (name, v) = SHIPPED[i.parse::<usize>().unwrap() % SHIPPED.len()];
             self.calibrate(name, v, tier, &mut out);
         } else {
             self.fault_case(label, &mut rng, tier, &mut out);
